@@ -52,45 +52,7 @@ func scenC16(k *K) {
 	bus := c.Peers[0].DB.EventBus()
 	ctx, cancel := context.WithCancel(context.Background())
 	k.cleanups = append(k.cleanups, cancel)
-	// state check run by subscribers on receipt
-	check := func(who string, e interface{}) string {
-		switch ev := e.(type) {
-		case stores.EventWrite:
-			if ev.Address.String() != addr {
-				return ""
-			}
-			if _, ok := P.OpLog().Get(ev.Entry.GetHash()); !ok {
-				return fmt.Sprintf("%s got EventWrite for %s before the entry is in the log", who, EntryName(ev.Entry))
-			}
-			if el, ok := P.(iface.EventLogStore); ok {
-				if !containsVal(listValues(el), valueOf(ev.Entry.GetPayload())) {
-					return fmt.Sprintf("%s got EventWrite for %s but List(-1) does not show it", who, EntryName(ev.Entry))
-				}
-			}
-			if kv, ok := P.(iface.KeyValueStore); ok {
-				if msg := c16ViewReflects(kv, ev.Entry); msg != "" {
-					return fmt.Sprintf("%s got EventWrite for %s but %s", who, EntryName(ev.Entry), msg)
-				}
-			}
-		case stores.EventReplicated:
-			for _, en := range ev.Entries {
-				if _, ok := P.OpLog().Get(en.GetHash()); !ok {
-					return fmt.Sprintf("%s got EventReplicated naming %s which is not in the log", who, EntryName(en))
-				}
-				if el, ok := P.(iface.EventLogStore); ok {
-					if !containsVal(listValues(el), valueOf(en.GetPayload())) {
-						return fmt.Sprintf("%s got EventReplicated for %s but List(-1) does not show it", who, EntryName(en))
-					}
-				}
-				if kv, ok := P.(iface.KeyValueStore); ok {
-					if msg := c16ViewReflects(kv, en); msg != "" {
-						return fmt.Sprintf("%s got EventReplicated for %s but %s", who, EntryName(en), msg)
-					}
-				}
-			}
-		}
-		return ""
-	}
+	check := c16StateCheck(P, addr)
 	newSub := func(name string, recv func() (interface{}, bool)) *c16sub {
 		s := &c16sub{name: name, tokens: make(chan struct{}, 1<<16), seq: map[string][]string{}, recv: recv}
 		go func() {
@@ -368,6 +330,48 @@ func scenC16(k *K) {
 	c.CloseAll()
 }
 
+// c16StateCheck: the state check run by subscribers on receipt of an event.
+func c16StateCheck(P iface.Store, addr string) func(who string, e interface{}) string {
+	return func(who string, e interface{}) string {
+		switch ev := e.(type) {
+		case stores.EventWrite:
+			if ev.Address.String() != addr {
+				return ""
+			}
+			if _, ok := P.OpLog().Get(ev.Entry.GetHash()); !ok {
+				return fmt.Sprintf("%s got EventWrite for %s before the entry is in the log", who, EntryName(ev.Entry))
+			}
+			if el, ok := P.(iface.EventLogStore); ok {
+				if !containsVal(listValues(el), valueOf(ev.Entry.GetPayload())) {
+					return fmt.Sprintf("%s got EventWrite for %s but List(-1) does not show it", who, EntryName(ev.Entry))
+				}
+			}
+			if kv, ok := P.(iface.KeyValueStore); ok {
+				if msg := c16ViewReflects(kv, ev.Entry); msg != "" {
+					return fmt.Sprintf("%s got EventWrite for %s but %s", who, EntryName(ev.Entry), msg)
+				}
+			}
+		case stores.EventReplicated:
+			for _, en := range ev.Entries {
+				if _, ok := P.OpLog().Get(en.GetHash()); !ok {
+					return fmt.Sprintf("%s got EventReplicated naming %s which is not in the log", who, EntryName(en))
+				}
+				if el, ok := P.(iface.EventLogStore); ok {
+					if !containsVal(listValues(el), valueOf(en.GetPayload())) {
+						return fmt.Sprintf("%s got EventReplicated for %s but List(-1) does not show it", who, EntryName(en))
+					}
+				}
+				if kv, ok := P.(iface.KeyValueStore); ok {
+					if msg := c16ViewReflects(kv, en); msg != "" {
+						return fmt.Sprintf("%s got EventReplicated for %s but %s", who, EntryName(en), msg)
+					}
+				}
+			}
+		}
+		return ""
+	}
+}
+
 func valueOf(payload []byte) string {
 	o, ok := decodeOp(payload)
 	if !ok {
@@ -504,4 +508,81 @@ func atomicRead(f func() string) string {
 	inKernel = true
 	defer func() { inKernel = prev }()
 	return f()
+}
+
+func init() {
+	Register(&Scenario{Prop: "C16", Name: "concurrent-write-events", Run: scenC16Concurrent, Weight: 1,
+		Rule: "store on P (key-value or event log) with a prompt event-bus subscriber (buffer 8192, reads as soon as an event is sent, so no back-pressure); 2-5 rounds of 2-4 concurrent local writers stopped at the three write-path points and released one step at a time in drawn order, while writes on Q are replicated into P; oracle: on receipt of each EventWrite / EventReplicated the announced entries are in the log, the listing, and the key-value view shows their effect or that of a later entry; exactly one EventWrite per successful write, carrying the entry that call returned; non-trivial = >=2 writers were parked together at least once"})
+}
+
+func scenC16Concurrent(k *K) {
+	typ := []string{"keyvalue", "eventlog"}[k.C.Intn(2)]
+	c := k.NewCluster(ClusterCfg{N: 2, Type: typ})
+	P := c.Stores[0]
+	addr := P.Address().String()
+	check := c16StateCheck(P, addr)
+	ctx, cancel := context.WithCancel(context.Background())
+	k.cleanups = append(k.cleanups, cancel)
+	sub, err := c.Peers[0].DB.EventBus().Subscribe([]interface{}{new(stores.EventWrite), new(stores.EventReplicated)}, eventbus.BufSize(8192))
+	if err != nil {
+		panic(abortPanic{err.Error()})
+	}
+	var mu sync.Mutex
+	var fails []string
+	var wev []string
+	go func() {
+		defer sub.Close()
+		for {
+			select {
+			case e := <-sub.Out():
+				msg := atomicRead(func() string { return check("a prompt subscriber", e) })
+				mu.Lock()
+				if msg != "" {
+					fails = append(fails, msg)
+				}
+				if t, key, ok := c16key(e); ok && t == "W" {
+					if ev := e.(stores.EventWrite); ev.Address.String() == addr {
+						wev = append(wev, key)
+					}
+				}
+				mu.Unlock()
+			case <-ctx.Done():
+				return
+			}
+		}
+	}()
+	k.F = FaultCfg{Deliver: 5, Serve: 5, Refresh: 3, Tick: 1, Reorder: 1, ServeAny: 1}
+	before := k.W.Stats["burst-writers-parked-together"]
+	var acked []*WriteRec
+	for r, m := 0, k.C.Range(2, 5); r < m; r++ {
+		if k.C.Chance(1, 2) {
+			c.RandomWrite(1)
+		}
+		acked = append(acked, c.WriteBurst(0, k.C.Range(2, 4), k.C.Chance(4, 5))...)
+		k.Steps(k.C.Intn(8))
+	}
+	k.Settle(60*time.Second, 1500, c.AllIdle)
+	mu.Lock()
+	fs, ws := append([]string(nil), fails...), append([]string(nil), wev...)
+	mu.Unlock()
+	if len(fs) > 0 {
+		k.Failf("C16/event-ahead-of-state", "%s", fs[0])
+	}
+	cnt := map[string]int{}
+	for _, h := range ws {
+		cnt[h]++
+	}
+	for _, wr := range acked {
+		if cnt[wr.Hash] != 1 {
+			k.Failf("C16/write-event-count", "the successful write %s produced %d EventWrite events carrying its entry", wr.Name, cnt[wr.Hash])
+		}
+	}
+	if len(ws) != len(acked) {
+		k.Failf("C16/write-event-count", "%d successful local writes but %d EventWrite events were emitted", len(acked), len(ws))
+	}
+	k.Notes["events"] = len(ws)
+	k.Notes["local_writes"] = len(acked)
+	k.Notes["nontrivial"] = k.W.Stats["burst-writers-parked-together"] > before
+	cancel()
+	c.CloseAll()
 }
